@@ -108,7 +108,7 @@ namespace
   }
 
   // ---------------- plume ----------------
-  const std::vector<uint64_t> PLUME_RADIX = {3, 3, 4, 6, 3, 3, 3, 2};
+  const std::vector<uint64_t> PLUME_RADIX = {3, 3, 4, 6, 3, 5, 3, 2};
   struct Plume
   {
     bool sph;
@@ -136,7 +136,8 @@ namespace
         p.c.push_back({{p.c.back()[0]-1, p.c.back()[1]}});
         p.a.push_back(1.5); p.e.push_back(0.3); p.rot.push_back(p.rot.back()+20);
       }
-    p.min_depth = d[5] == 0 ? 0 : d[5] == 1 ? 5e4 : 1e5;
+    // 1.5e5 and 2.2e5: the plume starts below its first cross section (truncated at the top, no head)
+    p.min_depth = d[5] == 0 ? 0 : d[5] == 1 ? 5e4 : d[5] == 2 ? 1e5 : d[5] == 3 ? 1.5e5 : 2.2e5;
     p.has_max = d[6] != 0;
     p.max_depth = d[6] == 1 ? 4e5 : 2.5e5;
     return p;
@@ -263,7 +264,7 @@ int main(int argc, char **argv)
       auto devs = std::make_shared<std::vector<std::vector<unsigned>>>(deviations(PLUME_RADIX, k));
       Suite a; a.name = "plume"; a.n = devs->size();
       a.run = [devs](uint64_t i, Ctx &c) { run_plume(devs, i, c); };
-      a.bound = "plume tables within " + std::to_string(k) + " deviations of the default over radices (centres 3, semi-major 3, eccentricity 4, rotation 6, sections 3, min depth 3, max depth 3, coordinate system 2); 25x25x15 point lattice (quarter steps)";
+      a.bound = "plume tables within " + std::to_string(k) + " deviations of the default over radices (centres 3, semi-major 3, eccentricity 4, rotation 6, sections 3, min depth 5 (two of them below the first cross section), max depth 3, coordinate system 2); 25x25x15 point lattice (quarter steps)";
       s.push_back(a);
     }
     return s;
